@@ -39,9 +39,11 @@ def run(ctx, rep):
         names.append(d.targets[0].id)
         rep.check('D1.draws', fn, d, k == 'P', 'a U(0,1) draw', f'the draw is {k}, not uniform on (0, 1)')
         rep.check('D1.draws', fn, d, ln == ('len', np_), f'of length {np_}', f'the draw has length {ln}', construct=f'length of {d.targets[0].id}')
-    rep.check('D1.draws', fn, fn.node.name, len(draws) == 2 and len(set(names)) == 2, 'two separate draws',
-              f'{len(draws)} uniform draw(s): the probability and the conditioning variate are not independent draws', construct='number of draws')
-    rep.floor('D1.draws', 'uniform draws in Bivariate.sample', len(draws), 1)
+    if not draws:
+        rep.undecided('D1.draws', fn, fn.node.name, 'no `name = np.random.<draw>(...)` statement recognised in Bivariate.sample', construct='number of draws')
+    else:
+        rep.check('D1.draws', fn, fn.node.name, len(draws) == 2 and len(set(names)) == 2, 'two separate draws',
+                  f'{len(draws)} uniform draw(s): the probability and the conditioning variate are not independent draws', construct='number of draws')
     pp = [c for c in walk_no_nested(fn.node) if isinstance(c, ast.Call) and is_self_attr(c.func, fn.self_name) and c.func.attr in ('percent_point', 'ppf')]
     rets = [n for n in walk_no_nested(fn.node) if isinstance(n, ast.Return) and n.value is not None]
     if len(pp) != 1 or not rets:
@@ -72,8 +74,56 @@ def run(ctx, rep):
         rep.check('D1.shape', fn, stack, ln == ('len', np_), f'{np_} rows, 2 columns', f'the result has {ln} rows', construct='shape')
     rep.check('D2.scoped', fn, fn.node.name, RANDOM_STATE_DECORATOR in fn.decorators, '@random_state', 'the sampler is not under @random_state',
               construct='decorator')
-    guard = [n for n in walk_no_nested(fn.node) if isinstance(n, ast.If) and any(is_self_attr(x, fn.self_name, 'tau') for x in ast.walk(n.test))
-             and any(isinstance(s, ast.Raise) for s in n.body)]
-    before = bool(guard) and all(guard[0].lineno < d.lineno for d in draws)
-    rep.check('D2.scoped', fn, guard[0] if guard else fn.node.name, before, 'tau range guard precedes the draws',
-              'no tau range guard before the draws', construct='tau guard')
+    _tau_guard(ctx, rep, fn, draws)
+
+
+def _tau_guard(ctx, rep, fn, draws):
+    """The condition under which the first draw is reached (helpers that raise are followed) must exclude tau > 1 and tau < -1."""
+    from ..boolcond import Conds, atoms_of, callee_exits, f_and, satisfiable, show
+    if not draws:
+        rep.undecided('D2.scoped', fn, fn.node.name, 'no draw recognised: nothing to place the tau range guard before', construct='tau guard')
+        return
+    first = min(draws, key=lambda d: d.lineno)
+    cd = Conds(ctx.prog, fn)
+    reach = cd.reach(first, callee_hook=lambda c2, call: callee_exits(ctx, c2, call))
+    if reach is None:
+        rep.undecided('D2.scoped', fn, first, 'the condition under which the draws are reached is not derived', construct='tau guard')
+        return
+    tau = f'{fn.self_name}.tau'
+
+    def num(t):
+        try:
+            return float(t)
+        except ValueError:
+            return None
+    above = below = None
+    related = []
+    for k in atoms_of(reach):
+        if tau not in k:
+            continue
+        related.append(k)
+        if k.startswith('lt['):
+            a_, b_ = k[3:-1].split('|', 1)
+            if b_ == tau and num(a_) == 1.0:
+                above = ('atom', k)
+            elif a_ == tau and num(b_) == -1.0:
+                below = ('atom', k)
+            elif b_ in (f'abs({tau})', f'np.abs({tau})', f'np.absolute({tau})', f'np.fabs({tau})') and num(a_) == 1.0:
+                above = below = ('atom', k)
+    if above is not None and below is not None:
+        bad = [w for w, a in (('tau > 1', above), ('tau < -1', below)) if satisfiable(f_and(reach, a))]
+        rep.check('D2.scoped', fn, first, not bad, 'the draws are reached only with -1 <= tau <= 1',
+                  f'the draws are reached although {" or ".join(bad)} (reach condition: {show(reach)[:100]}): an out-of-range tau is sampled from',
+                  construct='tau guard')
+    elif related:
+        missing = 'tau > 1' if above is None else 'tau < -1'
+        both = above is None and below is None
+        rep.bad('D2.scoped', fn, first, f'the guard before the draws does not refuse {"tau > 1 / tau < -1" if both else missing} '
+                f'(comparisons on tau: {sorted(related)})', construct='tau guard')
+    else:
+        unresolved = [c for c in walk_no_nested(fn.node) if isinstance(c, ast.Call) and c.lineno < first.lineno
+                      and any(is_self_attr(x, fn.self_name, 'tau') for a in c.args for x in ast.walk(a))]
+        if unresolved:
+            rep.undecided('D2.scoped', fn, unresolved[0], 'tau is handed to a call that is not followed before the draws', construct='tau guard')
+        else:
+            rep.bad('D2.scoped', fn, first, 'no tau range guard before the draws', construct='tau guard')
